@@ -610,6 +610,17 @@ def g_kill(rng, family=None):
         depth = max(depth, 1)
         ops.append({"op": "submit", "ex": "e", "task": {"k": "nested", "kind": "plain", "kw": {"max_workers": 2, "timeout": 10},
                                                          "sub": [{"k": "spawn_subprocess", "hang": 120}, {"k": "spawn_subprocess", "hang": 120}], "then": "hang"}})
+    if family == "graceful_after_forced":
+        # a forced shutdown from one thread, a graceful non-waiting one from another a few milliseconds later: the request to
+        # kill must stand
+        kw["max_workers"] = mw = rng.randint(1, 3)
+        ops = [{"op": "new", "ex": "e", "kind": kind, "kw": kw}]
+        for _ in range(mw + rng.randint(0, 2)):
+            ops.append({"op": "submit", "ex": "e", "task": {"k": "endless"}})
+        ops += [{"op": "sleep", "d": 0.5}, {"op": "barrier", "name": "b"}, {"op": "sleep", "d": rng.choice([0.02, 0.04])}, {"op": "shutdown", "ex": "e", "wait": False}]
+        t1 = [{"op": "barrier", "name": "b"}, {"op": "shutdown", "ex": "e", "kill_workers": True, "forced": True}]
+        prog = {"threads": [ops, t1], "end": "return", "barriers": {"b": 2}, "tail": [{"op": "ns", "grace": 3.0, "after_forced": True}, {"op": "wait", "futs": "all"}, {"op": "census"}]}
+        return prog, {"gen": "g_kill", "kind": kind, "kw": kw, "depth": 0, "via": "shutdown", "family": family}
     if family == "idle_with_descendants":
         # finished tasks left long-lived subprocesses behind (directly, or below a nested pool kept alive in the worker); every
         # future is done when the forced shutdown arrives: the trees must be killed all the same
